@@ -115,7 +115,9 @@ def units(tier, seed):
         for mode in ("reassign", "setitem", "ctor-list-edited", "augmented"):
             us.append({"kind": "reweighted", "head": head, "mode": mode})
     for lib in ("feedback", "randomize"):
-        us.append({"kind": "reweighted-lib", "lib": lib, "max_dev": 2 if tier == "quick" else 3, "max_execs": 400 if tier == "quick" else 5000})
+        for form in ("population", "iterator", "after-selection"):
+            us.append({"kind": "reweighted-lib", "lib": lib, "form": form, "max_dev": 2 if tier == "quick" else 3,
+                       "max_execs": 400 if tier == "quick" else 5000})
     for gname in ("S1", "mindepth2", "mindepth3"):
         for init in ("grow", "pigrow", "ramped", "full", "inject-grow", "standard"):
             us.append({"kind": "init-deep", "init": init, "grammar": gname})
@@ -289,8 +291,10 @@ def run_reweighted_lib(unit) -> UnitResult:
                 step = RandomizeParallelStep(subs, [1, 1, 1, 1])
             pop = Population(iter([Individual(rep._new(0), rep) for i in range(n)]), tracker)
             sizes = []
+            top = SequenceStep(TournamentSelection(2, with_replacement=True), step) if unit.get("form") == "after-selection" else step
             for gen in (1, 2, 3):
-                pop = Population(step.apply(problem, ev, rep, src, pop, n, gen), tracker, gen)
+                given = iter(pop.individuals) if unit.get("form") == "iterator" else pop
+                pop = Population(top.apply(problem, ev, rep, src, given, n, gen), tracker, gen)
                 sizes.append((len(pop.individuals), [round(float(x), 3) for x in step.weights]))
             return sizes
 
@@ -298,7 +302,7 @@ def run_reweighted_lib(unit) -> UnitResult:
         for ex in explore(run, max_dev=unit["max_dev"], max_execs=unit["max_execs"], horizon=5000, stats=st):
             r.executions += 1
             w = {"unit": unit, "n": n, "choices": list(ex.choices)}
-            f = {"combinators": [unit["lib"]], "form": "reweighted"}
+            f = {"combinators": [unit["lib"]], "form": "reweighted-" + unit.get("form", "population")}
             if ex.exc is not None:
                 r.add_violation(Violation(PROP, "GeneticStep.apply", "raised", dict(f, exc=type(ex.exc).__name__), w,
                                           f"{unit['lib']} parallel step on {n}: {exc_brief(ex.exc)}"))
